@@ -131,7 +131,7 @@ func walkSDRs(ctx context.Context, s Session) (SDRRepository, error) {
 				return nil, fmt.Errorf("packet is missing Full Sensor Record layer: %v",
 					getSDRCmd)
 			}
-			repo[getSDRCmd.Req.RecordID] = fsrLayer.(*ipmi.FullSensorRecord)
+			repo[header.ID] = fsrLayer.(*ipmi.FullSensorRecord)
 		}
 
 		getSDRCmd.Req.RecordID = getSDRCmd.Rsp.Next
